@@ -78,7 +78,7 @@ VARIABLES running,   \* [c, r]: the delivered layers in force ("-": the file alo
           effSent,   \* the effective configuration upstream holds
           alive, ready,  \* health.Reporter
           lastHealth,    \* agent.lastHealth: "none" | "T" | "F"
-          healthUp,      \* the health upstream holds: [healthy, note]
+          healthUp,      \* the health upstream holds: [healthy]
           cum,       \* counters of the metrics store
           seen,      \* usageTracker.lastUsageData per signal
           cur,       \* usageTracker.currentDataPoints per signal
@@ -168,19 +168,19 @@ Poll ==
   /\ act' = [name |-> "Poll"]
 
 SetAlive(b) ==
-  /\ "health" \in Feat /\ alive # b
+  /\ "health" \in Feat /\ alive # b /\ ~stopped
   /\ alive' = b
   /\ Quiet /\ ConfigUnch /\ UsageUnch /\ UNCHANGED <<ready, lastHealth, healthUp, live, stopped>>
   /\ act' = [name |-> "SetAlive", b |-> b]
 
 SetReady(b) ==
-  /\ "health" \in Feat /\ ready # b
+  /\ "health" \in Feat /\ ready # b /\ ~stopped
   /\ ready' = b
   /\ Quiet /\ ConfigUnch /\ UsageUnch /\ UNCHANGED <<alive, lastHealth, healthUp, live, stopped>>
   /\ act' = [name |-> "SetReady", b |-> b]
 
 Grow(m, d) ==
-  /\ "usage" \in Feat /\ cum[m] + d <= MaxCum
+  /\ "usage" \in Feat /\ cum[m] + d <= MaxCum /\ ~stopped
   /\ cum' = [cum EXCEPT ![m] = @ + d]
   /\ Quiet /\ ConfigUnch /\ HealthUnch /\ UNCHANGED <<seen, cur, pend, offered, delivered, phase, live, stopped>>
   /\ act' = [name |-> "Grow", m |-> m, d |-> d]
@@ -197,7 +197,7 @@ HealthTick ==
   /\ IF "health" \in live
        THEN /\ LET h == alive /\ ready IN
                IF lastHealth = "none" \/ lastHealth # B2S(h)
-                 THEN /\ lastHealth' = B2S(h) /\ healthUp' = [healthy |-> h, note |-> ""]
+                 THEN /\ lastHealth' = B2S(h) /\ healthUp' = [healthy |-> h]
                  ELSE UNCHANGED <<lastHealth, healthUp>>
             \* usageTracker.Add per signal with the sum of its counters; a zero reading is ignored
             /\ IF Records(running.c)
@@ -241,7 +241,7 @@ Ack ==
 Stop ==
   /\ "stop" \in Feat /\ ~stopped
   /\ stopped' = TRUE
-  /\ healthUp' = [healthy |-> FALSE, note |-> "shutdown"]
+  /\ healthUp' = [healthy |-> FALSE]
   /\ phase' = "idle"       \* a held report is abandoned (its usage stays unconfirmed in the tracker)
   /\ Quiet /\ ConfigUnch /\ UNCHANGED <<alive, ready, lastHealth, cum, seen, cur, pend, offered, delivered>>
   /\ \/ /\ live' = {}
@@ -262,7 +262,7 @@ Init == /\ running = [c |-> "-", r |-> "-"]
         /\ lastRecv = "none" /\ status = NoStatus /\ sent = <<>> /\ reload = "none"
         /\ effSent = [c |-> "-", r |-> "-"]         \* the client's first message carries GetEffectiveConfig
         /\ alive = FALSE /\ ready = FALSE /\ lastHealth = "none"
-        /\ healthUp = [healthy |-> FALSE, note |-> ""]   \* connect(): SetHealth(false)
+        /\ healthUp = [healthy |-> FALSE]               \* connect(): SetHealth(false)
         /\ cum = [m \in Counters |-> 0]
         /\ seen = Zero /\ cur = Zero /\ pend = Zero /\ delivered = Zero
         /\ offered = NotOffered /\ phase = "idle"
@@ -281,7 +281,7 @@ TypeOK == /\ running \in Pairs /\ effSent \in Pairs
           /\ sent \in Seq(Stati) /\ Len(sent) \in {0, 2}
           /\ reload \in {"none", "applied", "warn", "unchanged", "refused"}
           /\ alive \in BOOLEAN /\ ready \in BOOLEAN /\ lastHealth \in {"none", "T", "F"}
-          /\ healthUp \in [healthy : BOOLEAN, note : {"", "shutdown"}]
+          /\ healthUp \in [healthy : BOOLEAN]
           /\ cum \in [Counters -> 0 .. MaxCum]
           /\ \A s \in Signals : seen[s] >= 0 /\ cur[s] >= 0 /\ pend[s] >= 0 /\ delivered[s] >= 0
           /\ offered.on \in BOOLEAN /\ (~offered.on => offered.u = Zero)
